@@ -114,7 +114,12 @@ class G:
             else:
                 mt = self.type(depth + 1)
                 members.append((mn, mt))
-                text.append(mt.decl(mn) + ";")
+                al = ""
+                if d(st.integers(0, 7)) == 0:
+                    # a member aligned beyond the widest store instruction: the enclosing types inherit the alignment
+                    al = "_Alignas(%d) " % d(st.sampled_from([16, 16, 32, 64]))
+                    self.labels.add("overaligned-member")
+                text.append(al + mt.decl(mn) + ";")
         self.defs.append("%s %s { %s };" % (kind, tag, " ".join(text)))
         self.labels.add(kind)
         return T(kind, tag=tag, members=members)
